@@ -2,6 +2,7 @@ package main
 
 import (
 	"fmt"
+	"go/token"
 	"go/types"
 	"strings"
 
@@ -282,19 +283,93 @@ func ruleC04Verify(rule string) ruleFn {
 		// DeepEqual over the two chains (any slicing of them)
 		deq := func(b *ssa.BasicBlock, k int) bool {
 			iff, ok := b.Instrs[len(b.Instrs)-1].(*ssa.If)
-			if !ok || k != 0 {
+			if !ok {
 				return false
 			}
-			s := R.CondAtom(iff.Cond).String()
+			cond, want := iff.Cond, 0
+			for {
+				if u, ok := cond.(*ssa.UnOp); ok && u.Op == token.NOT {
+					cond, want = u.X, 1-want
+					continue
+				}
+				break
+			}
+			if k != want {
+				return false
+			}
 			// both chains compared from element 1 (the head is skipped) up to and including the position
-			// at which the checkpoint was found in the RW chain
-			bounds := "[+1:+phi{* | phi{* | 0}} +1]"
-			return s == "reflect.DeepEqual("+rwChain+"#0"+bounds+","+woChain+"#0"+bounds+")"
+			// at which the checkpoint was found in the RW chain: DeepEqual(rw[1:I+1], wo[1:I+1]) with one
+			// and the same I, and I a position of the scan over the RW chain (or its initial 0)
+			cl, ok := cond.(*ssa.Call)
+			if !ok || CalleeName(cl) != "reflect.DeepEqual" || len(cl.Call.Args) != 2 {
+				return false
+			}
+			var idx [2]ssa.Value
+			for i, want := range []string{rwChain + "#0", woChain + "#0"} {
+				av := cl.Call.Args[i]
+				if mi, ok := av.(*ssa.MakeInterface); ok {
+					av = mi.X
+				}
+				sl, ok := strip(av).(*ssa.Slice)
+				if !ok || sl.Low == nil || sl.High == nil || R.V(sl.Low) != "1" {
+					return false
+				}
+				if base := R.V(sl.X); base != want {
+					return false
+				}
+				hi, ok := sl.High.(*ssa.BinOp)
+				if !ok || hi.Op != token.ADD || R.V(hi.Y) != "1" {
+					return false
+				}
+				idx[i] = hi.X
+			}
+			if idx[0] != idx[1] && R.V(idx[0]) != R.V(idx[1]) {
+				return false
+			}
+			hasPos := false
+			for _, leaf := range phiInputs(idx[0]) {
+				r := R.V(leaf)
+				pos := r == "*" || strings.HasPrefix(r, "count{") || strings.HasPrefix(r, "(+count{")
+				if !pos && r != "0" {
+					return false
+				}
+				if pos {
+					hasPos = true
+				}
+			}
+			if !hasPos {
+				return false // a constant: the scan's result is not what the chains are cut at
+			}
+			// when the scan finds nothing, I is the LAST position scanned, not its initial value: the
+			// constant may only enter through the phi at the head of the scan loop (before the first
+			// iteration), never through the merge behind the loop
+			okInit := true
+			var chk func(v ssa.Value, depth int)
+			chk = func(v ssa.Value, depth int) {
+				p, isPhi := strip(v).(*ssa.Phi)
+				if !isPhi || depth > 4 {
+					return
+				}
+				for _, e := range p.Edges {
+					if _, isC := strip(e).(*ssa.Const); isC && !isLoopHeader(p.Block()) {
+						okInit = false
+					}
+					chk(e, depth+1)
+				}
+			}
+			chk(idx[0], 0)
+			return okInit
 		}
 		c.Guard(rule, fn, promo, "promote to RW", nil, Need{Desc: "reflect.DeepEqual(rwChain[1:indx+1], chain[1:indx+1]) is true, indx = position of the WO checkpoint in the RW chain", Edge: deq})
 		foundLoop := false
 		for _, ea := range allAtoms(fn, R) {
-			if ea.Atom.String() == eqAtom(rwChain+"#0[*]", ckpt) {
+			as := ea.Atom.String()
+			if as == eqAtom(rwChain+"#0[*]", ckpt) {
+				foundLoop = true
+			}
+			// the position may be rendered as a count of non-matching iterations (`for i := 0; ...; i++`
+			// with the break in front of the increment)
+			if strings.HasSuffix(as, " ==0") && strings.Contains(as, rwChain+"#0[+count{") && strings.Contains(as, ckpt) && !strings.Contains(as, "len(") {
 				foundLoop = true
 			}
 		}
@@ -1663,4 +1738,26 @@ func (c *Ctx) admitted(fn *ssa.Function, desc, addr string) Need {
 		return Need{Desc: desc, Edge: okOf(fn, R, fCtl+"canAdd", "($0,"+addr+")").Edge}
 	}
 	return atom(desc, fCtl+"canAdd($0,"+addr+")#0")
+}
+
+// isLoopHeader: some predecessor of b is reachable from b (b heads a cycle).
+func isLoopHeader(b *ssa.BasicBlock) bool {
+	seen := map[*ssa.BasicBlock]bool{}
+	var stack []*ssa.BasicBlock
+	stack = append(stack, b.Succs...)
+	for len(stack) > 0 {
+		x := stack[len(stack)-1]
+		stack = stack[:len(stack)-1]
+		if seen[x] {
+			continue
+		}
+		seen[x] = true
+		stack = append(stack, x.Succs...)
+	}
+	for _, p := range b.Preds {
+		if seen[p] {
+			return true
+		}
+	}
+	return false
 }
